@@ -473,7 +473,7 @@ Proof.
 Qed.
 
 (* every operation of a plain history keeps `leveldb overlaid by the batch` equal to what the history asks for;
-   DeleteRegion removes the id from both (RegionStorage.Remove, e76651c) *)
+   DeleteRegion removes the id from both (RegionStorage.Remove, 8a5de01) *)
 Lemma rs_step s o f : SInv s -> op_ok o -> plain_op o = true -> use_rs s = true ->
   (forall id, overlay s id = f id) ->
   use_rs (fst (run_op s o)) = true /\ forall id, overlay (fst (run_op s o)) id = region_want f o id.
